@@ -142,6 +142,10 @@ def _gen_bbw(rng):
     # initial conditions other than the defaults too: the wrappers must still equal the general class (the
     # unshocked state then comes from the class attributes in BOTH: finding C02.bbnoh.initial_state)
     c['ic'] = None if rng.random() < 0.5 else dict(density=rng.uniform(0.5, 2.0), velocity=-rng.uniform(0.5, 2.0), pressure=0)
+    if c['ic'] is not None and rng.random() < 0.5:
+        # a dictionary written for the general class carries 'symmetry'; handed to a wrapper of another geometry, the
+        # wrapper's own geometry must win (seeded C16-10: `defaults.update(user)` let the user's key override it)
+        c['ic']['symmetry'] = (c['geometry'] - 1 + rng.choice([1, 2])) % 3
     return c
 
 
